@@ -10,7 +10,7 @@ PY = '/venv/bin/python'
 CHECKS = {
     'C01': ('DESIGN.md 4/C01',
             'deviation-bounded enumeration of model/configuration points; each generated shell is compiled against a mock Dezyne runtime and an auto-generated driver enumerates every (port, event, argument position) in both travel directions inside the compiled program',
-            'Every point within 1 (quick) / 2 (thorough) deviations of the base point AND of the multi-client base point in a 26-dimensional model space (externs spelled as identifier chains or exotically - template with comma and blank, function signature in parentheses, leading '::' and negative template argument, 'const struct X &' -, generated code compiled -O0 or -O2 -DNDEBUG, ports 0-3 per direction sharing one interface / none / first-and-third only, 0/1/3 injected ports, namespaces incl. nested/shadowing/repeated names, interface placement and spelling, event menu (16 events, up to 4 formals, long names) and declaration order, per-interface externs, value- and reference-typed externs, identifier shapes incl. Python keywords and 45-character names, semantics, origin, multi-client variants incl. an interface with only claim/release, prefix, system/component), plus the cross products semantics x origin and event-menu x semantics x origin and name-relation corner points (134 / ~1480 programs). Per program every event is fired twice (declaration order, then reverse) with pairwise distinct - and same-typed - argument values while recorders sit on all events of all ports: exactly one hit on the same-named event of the same-named port; arguments, reply, out and inout values intact; REENTRANT: every inbound event handled by a component that raises an outbound event of the same port from inside the handler; out-events of the multi-client port reach the holder; under AddressSanitizer.',
+            'Every point within 1 (quick) / 2 (thorough) deviations of the base point AND of the multi-client base point in a 26-dimensional model space (externs spelled as identifier chains or exotically - template with comma and blank, function signature in parentheses, leading :: and negative template argument, const struct X & -, generated code compiled -O0 or -O2 -DNDEBUG, ports 0-3 per direction sharing one interface / none / first-and-third only, 0/1/3 injected ports, namespaces incl. nested/shadowing/repeated names, interface placement and spelling, event menu (16 events, up to 4 formals, long names) and declaration order, per-interface externs, value- and reference-typed externs, identifier shapes incl. Python keywords and 45-character names, semantics, origin, multi-client variants incl. an interface with only claim/release, prefix, system/component), plus the cross products semantics x origin and event-menu x semantics x origin and name-relation corner points (134 / ~1480 programs). Per program every event is fired twice (declaration order, then reverse) with pairwise distinct - and same-typed - argument values while recorders sit on all events of all ports: exactly one hit on the same-named event of the same-named port; arguments, reply, out and inout values intact; REENTRANT: every inbound event handled by a component that raises an outbound event of the same port from inside the handler; out-events of the multi-client port reach the holder; under AddressSanitizer.',
             'Trusted: mock dzn:: runtime (vf/cxx/mock), mock dzn-code header generator (modelgen), driver generator (lab.py), g++ 12. Model space bounds: <=3 ports per direction, extern-typed formals.'),
     'C02': ('DESIGN.md 4/C02',
             'same compiled programs as C01; dispatcher involvement measured on a deterministic step pump (posted counter, in-dispatch flag, deferred queueing with overwritten arguments and scrubbed stack, ASan use-after-return)',
@@ -30,7 +30,7 @@ CHECKS = {
             'Trusted: as C01. The mock component reads its locator in the constructor like real Dezyne components.'),
     'C10': ('DESIGN.md 4/C10',
             'same compiled programs as C01; fault enumeration inside the program: every single binding left out one at a time on a fresh shell; explicit-state exploration of bind / unbind / FinalConstruct histories replayed on fresh shells',
-            'Same programs as C01 x every event the user or the wrapped component must bind left out one at a time on a fresh shell (multi-client: x 0..4 registered clients): FinalConstruct must throw a runtime_error - and throw again when retried; fully bound must return and record the parent (also the default nullptr); registration after final construction must throw - six attempts with identifiers sorting before / between / after the registered ones, after which the identifier list is unchanged; HISTORIES: every sequence of unbind(k) / bind(k) / FinalConstruct to depth 5 / 7 over three representative bindings (first, last, a registered client's out-event), each replayed on a fresh shell against the reference state (set of unbound bindings): until it has succeeded once, final construction fails iff something is unbound.',
+            'Same programs as C01 x every event the user or the wrapped component must bind left out one at a time on a fresh shell (multi-client: x 0..4 registered clients): FinalConstruct must throw a runtime_error - and throw again when retried; fully bound must return and record the parent (also the default nullptr); registration after final construction must throw - six attempts with identifiers sorting before / between / after the registered ones, after which the identifier list is unchanged; HISTORIES: every sequence of unbind(k) / bind(k) / FinalConstruct to depth 5 / 7 over three representative bindings (first, last, an out-event of a registered client), each replayed on a fresh shell against the reference state (set of unbound bindings): until it has succeeded once, final construction fails iff something is unbound.',
             'Trusted: as C01; binding_error derives from std::runtime_error as in the Dezyne runtime.'),
     'C03': ('DESIGN.md 4/C03',
             'exhaustive enumeration of selection pairs x port sets per side, each run through PortsSemanticsCfg.match and end-to-end through Builder.build, judged by a reference resolver',
